@@ -7,6 +7,7 @@ import Nstd.Future.SafetyFault
 import Nstd.Future.LiveWorker
 import Nstd.Future.Progress
 import Nstd.Future.LiveProducer
+import Nstd.Future.LiveAll
 import Nstd.Future.Handshake
 import Nstd.Future.HandshakeWitness
 /-
@@ -86,6 +87,17 @@ theorem call_record_freed_once_and_alive {cfg : Config} {s : State} (h : Reach c
     s.fault = none :=
   ⟨call_record_freed_once h c, fun _ _ _ hth hfr hp => exec_record_alive h hth hfr hp, no_fault h⟩
 
+/-- Nothing is lost: while the pool exists, a started call that has not completed is held by a live thread (the starting
+    client on its way to the queue, a worker that popped it, or its executor), or is queued in the ring, or is claimed by
+    a popper that is about to read it (token conservation: exactly one token per call record). -/
+theorem started_call_is_never_lost {cfg : Config} {s : State} (h : Reach cfg s) (hl : poolAlive s) {c : Nat}
+    (hc : c < s.nextCall) (hn : s.completed c = false) :
+    (∃ t th, s.threads t = some th ∧ th.finished = false ∧ 1 ≤ weight c th) ∨
+    (∃ p x, s.pool = some p ∧ p.ring.head ≤ x ∧ x < p.ring.tail ∧ p.ring.pushLog[x]? = some (some c)) ∨
+    (∃ p x t th, s.pool = some p ∧ p.ring.pushLog[x]? = some (some c) ∧ s.threads t = some th ∧
+      th.finished = false ∧ th.stack.head? = some (.ring (.popData x))) :=
+  LJ.uncompleted_call_has_holder h hl hc hn
+
 /-! ## Completion handshake (full model, every schedule, both code variants; each future used by one client thread) -/
 
 /-- `join()` (also inside the destructor, the result conversion and a re-`start`) returns only after the call's body has
@@ -146,6 +158,13 @@ theorem no_stuck_worker_side {cfg : Config} {s : State} (hrep : cfg.repaired = t
 theorem no_stuck_producer_side {cfg : Config} {s : State} {p : Pool} (hrep : cfg.repaired = true) (h : Reach cfg s)
     (hp : s.pool = some p) (hsl : ∃ t, asleepOnDeq s t) (hw : ∃ w, liveWorker s w) : ∃ t, enabled s t = true :=
   no_stuck_sleeper_on_deq hrep h hp hsl hw
+
+/-- Join side: whenever a client sleeps in `join()` on the Signal of its future and a worker thread is alive, some thread
+    can take a step (repaired code, each future used by one client). -/
+theorem no_stuck_join_side {cfg : Config} {s : State} (hrep : cfg.repaired = true) (hwf : cfg.WellFormed)
+    (h : Reach cfg s) (hsl : ∃ t f, topFrame s t = some (.sWaitCwake (f + 2)) ∧ t ∈ (s.sigs (f + 2)).waiters)
+    (hw : ∃ w, liveWorker s w) : ∃ t, enabled s t = true :=
+  joinSide_holds hrep hwf s h hsl hw
 
 /-- Mutual exclusion and progress of the simulated Signal layer inside the full model (both code variants): the two
     pool signals' mutexes are exclusive; a thread blocked on any Signal mutex has an owner that can step; a thread
